@@ -5,6 +5,8 @@ TIE       byte-exact toolbox vs the model (default masks of every length, all pa
 ORACLE    marshalling facts (checkArguments, unwrap lines, call line, out[] lines of every routine; guard lines
           of every .m file) of the implementation vs the model's
 """
+import re
+
 import framework as fw
 import projections as pj
 from props import _matlab_common as mc
@@ -23,6 +25,83 @@ def direct(files, r):
     return None
 
 
+def enum_clash_case(idx, payload):
+    """one spelling, several meanings: a class with a NESTED enum `Mode`, an enum `Mode` of the enclosing namespace (used by another
+    class), and a CLASS `Mode` in another namespace taken by value — in every order.  Each routine unwraps / wraps its
+    parameter and result for the DECLARED type: the nested enum as `hw.Pump.Mode`, the namespace enum as `hw.Mode`, the class
+    through its shared pointer.  Compared with the model byte for byte and judged directly on the routine bodies."""
+    import random
+    from common import impl_matlab, model_matlab
+    seed, _ = payload
+    rng = random.Random(seed * 1000003 + idx + 949494)
+    nm = rng.choice(["Mode", "Kind", "State"])
+    qual = rng.random() < 0.5            # spelled with or without the qualification (the unqualified spelling is the same text everywhere)
+    pq, hq, nq = ("hw::Pump::", "hw::", "net::") if qual else ("", "", "")
+    pump = ("class Pump { enum %s { OFF, ON, AUTO }; Pump(); %s%s mode() const; static %s%s Default(); "
+            "void setMode(%s%s m, int level = 1); };" % (nm, pq, nm, pq, nm, pq, nm))
+    valve = "class Valve { Valve(); %s%s speed() const; void setSpeed(%s%s s, double rate = 0.5); };" % (hq, nm, hq, nm)
+    hw_parts = ["enum %s { SLOW, FAST };" % nm, pump, valve]
+    rng.shuffle(hw_parts)
+    hw = "namespace hw { %s }" % " ".join(hw_parts)
+    net = "namespace net { class %s { %s(); }; class Link { Link(); void send(%s%s m, int retries = 3) const; %s%s current() const; }; }" % (nm, nm, nq, nm, nq, nm)
+    blocks = [hw, net]
+    rng.shuffle(blocks)
+    text = "\n".join(blocks) + "\n"
+    res = dict(idx=idx, text=text, bad=None)
+    st, out = impl_matlab([text], "mymod", [], False)
+    if st != "ok":
+        res["bad"] = dict(kind="spec", what="a module that uses one spelling for a nested enum, a namespace enum and a class is rejected (%s)" % out, input=text)
+        return res
+    cpp = out.get("mymod_wrapper.cpp", "")
+
+    def bodies(prefix):
+        return re.findall(r'^void %s_\d+\(int nargout, mxArray \*out\[\], int nargin, const mxArray \*in\[\]\)\n\{(.*?)^\}' % prefix, cpp, re.M | re.S)
+    T = r'[\w:]*%s' % nm
+    want = [("hwPump_mode", r'wrap_enum\(obj->mode\(\),"hw\.Pump\.%s"\)' % nm, 1),
+            ("hwPump_Default", r'wrap_enum\(hw::Pump::Default\(\),"hw\.Pump\.%s"\)' % nm, 1),
+            ("hwPump_setMode", r'm = unwrap_enum<\s*%s\s*>\(in\[1\]\);.*obj->setMode\(m,' % T, 2),
+            ("hwValve_speed", r'wrap_enum\(obj->speed\(\),"hw\.%s"\)' % nm, 1),
+            ("hwValve_setSpeed", r's = unwrap_enum<\s*%s\s*>\(in\[1\]\);.*obj->setSpeed\(s,' % T, 2),
+            ("netLink_send", r'm = unwrap_shared_ptr<\s*%s\s*>\(in\[1\], "ptr_%s%s"\);.*obj->send\(\*m,' % (T, "net" if qual else r"\w*", nm), 2),
+            ("netLink_current", r'wrap_shared_ptr\(std::make_shared<%s>\(obj->current\(\)\),"%s%s", false\)' % (T, r"net\." if qual else r"[\w.]*", nm), 1)]
+    for prefix, rx, count in want:
+        bs = bodies(prefix)
+        if len(bs) != count or not all(re.search(rx, b, re.S) for b in bs):
+            res["bad"] = dict(kind="spec", what="routine %s does not unwrap / wrap for the declared type (expected /%s/ in each of its %d routines; found %d)"
+                              % (prefix, rx, count, len(bs)), input=text)
+            return res
+    files = {"+hw/+Pump/%s.m" % nm: ["OFF(0)", "ON(1)", "AUTO(2)"], "+hw/%s.m" % nm: ["SLOW(0)", "FAST(1)"]}
+    for f, ens in files.items():
+        if f not in out or any(e not in out[f] for e in ens):
+            res["bad"] = dict(kind="spec", what="enumeration file %s is missing or lacks the declared enumerators" % f, input=text)
+            return res
+    mdl = model_matlab(fw.worker_driver(), text, "mymod", [], False)
+    if mdl != (st, out):
+        res["bad"] = dict(kind="model", what="model and implementation differ on a module with clashing enum / class spellings", input=text)
+    return res
+
+
+def enum_clash_stream(ctx, n, off=0, collect=True):
+    first = None
+    for r in fw.run_cases(enum_clash_case, [(ctx.seed + off, None)] * n):
+        if "crash" in r:
+            raise RuntimeError(r["crash"])
+        if collect:
+            ctx.case("enumclash" + r["text"], sample=None)
+            ctx.count("enum_clash_cases")
+        b = r["bad"]
+        if b and b["kind"] == "spec":
+            first = first or dict(what=b["what"], input=b["input"])
+            if collect:
+                ctx.spec_fail(b["what"], input=b["input"])
+        elif b:
+            if collect:
+                ctx.disagree(b["what"], input=b["input"])
+        elif collect:
+            ctx.traces_validated += 1
+    return first
+
+
 def main(ctx):
     search = mc.run(ctx, THEOREM_MODULES, project, direct,
                     "guards / argument counts / unwrap sequence / call parameters / return wrapping differ from the proved-correct ones",
@@ -32,6 +111,9 @@ def main(ctx):
                         (dict(extra_kinds=['func'] * 8, max_decls=7, max_members=2), 0.4),
                         # overloaded static methods and constructors (member names from a small pool)
                         (dict(mnames=["Create", "Count", "f"], extra_member_kinds=['static', 'static', 'ctor'], max_members=6), 0.3)])
+    enum_clash_stream(ctx, ctx.scale(24, 300))
+    search0 = search
+    search = lambda c: search0(c) or enum_clash_stream(c, c.scale(24, 200), off=3, collect=False)  # noqa
     return fw.finish(ctx, search=search, assumptions=["hand-written model of matlab_wrapper/wrapper.py, tied byte-exactly on generated inputs"])
 
 
